@@ -294,7 +294,7 @@ def mk(files, dirs, asts, facts, root, key, mode="rel"):
 
 
 def gen_known(rnd):
-    """one variant of each recorded shape (W1..W8, W12 of coq/C13/Lemmas.v), names drawn at random"""
+    """one variant of each recorded shape (W1, W3..W8, W12 of coq/C13/Lemmas.v, the skipped-default cfg_attr variant) and of the repaired W2 shape, names drawn at random"""
     def names(k):
         return rnd.sample(range(0, 8), k)
     out = []
@@ -940,7 +940,7 @@ def run(tier, seed, replay):
     rep.coverage.update({
         "evaluations": len(cases),
         "distinct_nontrivial": len(nontrivial),
-        "rule": "seeded module trees (file nesting <= 4; name.rs / name/mod.rs / #[path] / cfg_attr(path) / fallback location; inline nesting <= 2 incl. #[path] on inline modules and empty `mod tests {}`; cfg_if!/cfg_match! bodies; skip attributes, #![rustfmt::skip], @generated, ignore; 1-3 decoy files; a few missing / ambiguous / unparsable modules; skip_children, format_generated_files; root relative / absolute / stdin; root at the top or in a sub-directory) materialised with every file unformatted, uniquely marked, mtime in the past; one real `rustfmt --verbose ROOT` run per tree (under strace -e openat when permitted): changed bytes, mtimes, `Formatting` lines in order, error kind, files opened for writing; judged by a python transcription of the language's rules (cross-checked against rustc --emit dep-info) and compared with run_resolve; plus a dedicated stream with one randomised variant of each recorded shape W1..W8, W12. non-trivial = at least one decoy, one non-default resolution, more than one file formatted, no deviation",
+        "rule": "seeded module trees (file nesting <= 4; name.rs / name/mod.rs / #[path] / cfg_attr(path) / fallback location; inline nesting <= 2 incl. #[path] on inline modules and empty `mod tests {}`; cfg_if!/cfg_match! bodies; skip attributes, #![rustfmt::skip], @generated, ignore; 1-3 decoy files; a few missing / ambiguous / unparsable modules; skip_children, format_generated_files; root relative / absolute / stdin; root at the top or in a sub-directory) materialised with every file unformatted, uniquely marked, mtime in the past; one real `rustfmt --verbose ROOT` run per tree (under strace -e openat when permitted): changed bytes, mtimes, `Formatting` lines in order, error kind, files opened for writing; judged by a python transcription of the language's rules (cross-checked against rustc --emit dep-info) and compared with run_resolve; plus a dedicated stream with one randomised variant of each recorded shape (W1, W3..W8, W12 of coq/C13/Lemmas.v and the skipped-default cfg_attr variant) and of the repaired W2 shape, which is judged like any other tree. non-trivial = at least one decoy, one non-default resolution, more than one file formatted, no deviation",
         "samples": [{"root": pstr(cases[i]["root"]), "cfg": cases[i]["cfg"], "files": [pstr(p) for p, _ in cases[i]["files"]]} for i in range(0, len(cases), step)][:4],
         "correspondence_disagreements": len(disagreements),
         "traces_validated_against_impl": len(cases) if model is not None else 0,
